@@ -9,7 +9,7 @@ tools/sensitivity/results.jsonl.
 import json, os, subprocess, sys, time
 ROOT = os.path.dirname(os.path.dirname(os.path.abspath(__file__)))
 MUT = json.load(open(os.path.join(ROOT, "tools/sensitivity/mutants.json")))
-ENV = dict(os.environ, GOFLAGS="-mod=mod", GOPROXY="off", GOSUMDB="off", VERIF_REPLAY_DIR=os.path.join(ROOT, ".work", "mutant-replays"))
+ENV = dict(os.environ, GOFLAGS="-mod=mod", GOPROXY="off", GOSUMDB="off", VERIF_REPLAY_DIR=os.path.join(ROOT, ".work", "mutant-replays"), VERIF_EVIDENCE_DIR=os.path.join(ROOT, ".work", "mutant-evidence"))
 
 def sh(cmd, **kw):
     return subprocess.run(cmd, shell=True, stdout=subprocess.PIPE, stderr=subprocess.STDOUT, text=True, **kw)
